@@ -24,6 +24,13 @@ Definition es_quantile (alpha f o t : Q) : Q := es_quantile_over alpha f o t + e
 Definition es_huber (alpha a f o t : Q) : Q := es_huber_over alpha a f o t + es_huber_under alpha a f o t.
 Definition es_expectile (alpha f o t : Q) : Q := es_expectile_over alpha f o t + es_expectile_under alpha f o t.
 
+(* the losses the Murphy curves integrate to: pinball, half asymmetric squared error, asymmetric Huber loss *)
+Definition loss_quantile (alpha f o : Q) : Q := if Qltb o f then (1 - alpha) * (f - o) else alpha * (o - f).
+Definition loss_expectile (alpha f o : Q) : Q := (if Qltb o f then 1 - alpha else alpha) * ((f - o) * (f - o)) / 2.
+Definition loss_huber (alpha a f o : Q) : Q :=
+  (if Qltb o f then 1 - alpha else alpha)
+  * (if Qle_bool (Qabs (f - o)) a then (1 # 2) * ((f - o) * (f - o)) else a * (Qabs (f - o) - (1 # 2) * a)).
+
 (* ------------------------------------------------------------------------------------------ *)
 (* murphy_score                                                                                *)
 (* ------------------------------------------------------------------------------------------ *)
